@@ -51,6 +51,7 @@ type gotr struct {
 	depth  int                 // loop nesting depth
 	mut    map[string]bool     // variables assigned somewhere in the current function
 	innerRet bool              // translating the body of a nested loop that contains a return
+	recCalls []string          // the recursive call of each enclosing loop (what `continue` does)
 }
 
 func (t *gotr) fail(n ast.Node, why string) {
@@ -61,10 +62,10 @@ func (t *gotr) fail(n ast.Node, why string) {
 
 var gtTypes = map[string]string{
 	"int": "Int", "uint": "Nat", "bool": "Bool", "error": "Option GoErr", "*big.Int": "Int", "Op": "GOp",
-	"Program": "List GOp", "*Program": "List GOp", "Chain": "List Int", "[]*big.Int": "List Int", "[]int": "List Int", "[]Op": "List GOp",
+	"Program": "List GOp", "*Program": "List GOp", "Chain": "List Int", "[]*big.Int": "List Int", "[]int": "List Int", "[]Op": "List GOp", "[][]Op": "List (List GOp)",
 }
 
-var gtElem = map[string]string{"Program": "Op", "*Program": "Op", "Chain": "*big.Int", "[]*big.Int": "*big.Int", "[]int": "int", "[]Op": "Op"}
+var gtElem = map[string]string{"Program": "Op", "*Program": "Op", "Chain": "*big.Int", "[]*big.Int": "*big.Int", "[]int": "int", "[]Op": "Op", "[][]Op": "[]Op"}
 
 // functions of internal/bigint translated by c19.go (AC/Gen/BigintFns.lean; pure, never panic)
 var gtBigint = map[string]struct {
@@ -83,6 +84,12 @@ func gtBigArgs(m string) []string {
 		return []string{"*big.Int", "uint"}
 	}
 	return []string{"*big.Int", "*big.Int"}
+}
+
+// tyOf renders a type expression; the qualifier of the root package is dropped (package opt writes
+// addchain.Op, addchain.Chain).
+func tyOf(fset *token.FileSet, n ast.Node) string {
+	return strings.ReplaceAll(Src(fset, n), "addchain.", "")
 }
 
 func (t *gotr) leanType(n ast.Node, goType string) string {
@@ -241,7 +248,7 @@ func (t *gotr) expr(e ast.Expr) (string, string) {
 			}
 		}
 	case *ast.CompositeLit:
-		ty := Src(t.fset, v.Type)
+		ty := tyOf(t.fset, v.Type)
 		elts := []string{}
 		etys := []string{}
 		for _, el := range v.Elts {
@@ -327,7 +334,7 @@ func (t *gotr) call(v *ast.CallExpr) (string, string) {
 				}
 			}
 		case "make":
-			if (len(v.Args) == 2 || len(v.Args) == 3) && Src(t.fset, v.Args[0]) == "[]*big.Int" {
+			if (len(v.Args) == 2 || len(v.Args) == 3) && tyOf(t.fset, v.Args[0]) == "[]*big.Int" {
 				// make([]*big.Int, n[, cap]): n nil pointers, modelled as n placeholders that the
 				// translated functions overwrite before reading (capacity is not modelled)
 				n, nt := t.expr(v.Args[1])
@@ -335,7 +342,13 @@ func (t *gotr) call(v *ast.CallExpr) (string, string) {
 					return "(← makeBigs " + n + ")", "[]*big.Int"
 				}
 			}
-			if len(v.Args) == 2 && Src(t.fset, v.Args[0]) == "[]int" {
+			if len(v.Args) == 2 && tyOf(t.fset, v.Args[0]) == "[][]Op" {
+				n, nt := t.expr(v.Args[1])
+				if nt == "int" {
+					return "(← makeOpLists " + n + ")", "[][]Op"
+				}
+			}
+			if len(v.Args) == 2 && tyOf(t.fset, v.Args[0]) == "[]int" {
 				n, nt := t.expr(v.Args[1])
 				if nt == "int" {
 					return "(← makeInts " + n + ")", "[]int"
@@ -677,6 +690,10 @@ func (t *gotr) stmt(s ast.Stmt, ind string) string {
 				}
 			}
 		}
+	case *ast.BranchStmt:
+		if v.Tok == token.CONTINUE && v.Label == nil && len(t.recCalls) > 0 {
+			return ind + "return (← " + t.recCalls[len(t.recCalls)-1] + ")\n"
+		}
 	case *ast.IncDecStmt:
 		d := " + 1"
 		if v.Tok == token.DEC {
@@ -806,7 +823,9 @@ func (t *gotr) stmt(s ast.Stmt, ind string) string {
 func (t *gotr) blockOrUnit(list []ast.Stmt, ind string) string {
 	for _, s := range list {
 		if _, ok := t.isLoop(s); ok {
-			if _, ret := list[len(list)-1].(*ast.ReturnStmt); !ret || t.depth != 0 {
+			// an outermost loop carries the rest of the function, so its block must end by returning;
+			// a nested loop is an ordinary statement (it returns the variables it assigns)
+			if _, ret := list[len(list)-1].(*ast.ReturnStmt); !ret && t.depth == 0 {
 				t.fail(s, "loop inside a conditional whose block does not end by returning")
 			}
 		}
@@ -1083,7 +1102,9 @@ func (t *gotr) loop(s ast.Stmt, rest []ast.Stmt, ind string, tail string) string
 		recCall += " (" + idxName + " + 1)"
 	}
 	recCall += " " + strings.Join(vars, " ")
+	t.recCalls = append(t.recCalls, recCall)
 	bodyS := t.block(body, bind, recCall)
+	t.recCalls = t.recCalls[:len(t.recCalls)-1]
 	t.innerRet = saveInner
 	t.depth--
 	t.pop()
@@ -1237,12 +1258,12 @@ func (t *gotr) function(key string, fd *ast.FuncDecl) {
 	params := []string{}
 	if fd.Recv != nil {
 		r := fd.Recv.List[0]
-		ty := Src(t.fset, r.Type)
+		ty := tyOf(t.fset, r.Type)
 		t.define(fd, r.Names[0].Name, ty)
 		params = append(params, "("+r.Names[0].Name+" : "+t.leanType(fd, ty)+")")
 	}
 	for _, fl := range fd.Type.Params.List {
-		ty := Src(t.fset, fl.Type)
+		ty := tyOf(t.fset, fl.Type)
 		for _, id := range fl.Names {
 			t.define(fd, id.Name, ty)
 			params = append(params, "("+id.Name+" : "+t.leanType(fd, ty)+")")
@@ -1258,7 +1279,7 @@ func (t *gotr) function(key string, fd *ast.FuncDecl) {
 	}
 	if fd.Type.Results != nil {
 		for _, fl := range fd.Type.Results.List {
-			ty := Src(t.fset, fl.Type)
+			ty := tyOf(t.fset, fl.Type)
 			for _, id := range fl.Names {
 				if ty != "int" {
 					t.fail(fd, "named result of type "+ty)
